@@ -21,9 +21,12 @@ pub fn handle_mget(storage: &Arc<StorageEngine>, db: usize, parts: &[RespFrame])
             _ => return Ok(RespFrame::error("ERR invalid key format")),
         };
         
-        match storage.get_string(db, key)? {
-            Some(value) => values.push(RespFrame::from_bytes(value)),
-            None => values.push(RespFrame::null_bulk()),
+        // MGET never fails: a key that does not hold a string yields nil
+        match storage.get_string(db, key) {
+            Ok(Some(value)) => values.push(RespFrame::from_bytes(value)),
+            Ok(None) => values.push(RespFrame::null_bulk()),
+            Err(FerrousError::Storage(StorageError::WrongType)) => values.push(RespFrame::null_bulk()),
+            Err(e) => return Err(e),
         }
     }
     
